@@ -72,7 +72,7 @@ def parseFin (s : String) : Option (Option Dur) :=
 def showIoErr : IoErr → String
   | .timeout => "timeout" | .reset => "reset"
 
-def showErr : Err → String
+def showSocksErr : Err → String
   | .dialRefused => "dial-refused"
   | .dialTimeout => "dial-timeout"
   | .dialCancelled => "dial-canceled"
@@ -86,7 +86,7 @@ def showErr : Err → String
 def showOutcome : Outcome → String
   | .reported t => s!"rep:{showIPv4 t.ip}:{t.port}"
   | .nothing => "none"
-  | .error e => "err:" ++ showErr e
+  | .error e => "err:" ++ showSocksErr e
 
 /-- `out=…;us=…;g=…` -/
 def parseSocksObs (s : String) : Option (String × Nat × String) :=
@@ -172,7 +172,7 @@ def handleSocksIO : List String → Option String
         let calls := r.caps.foldr (fun c acc => "dr" :: s!"r{c}" :: acc) []
         let fin := match r.res with
           | .ok buf => "=" ++ hex buf
-          | .error e => "!" ++ showErr e
+          | .error e => "!" ++ showSocksErr e
         pre ++ calls ++ [fin]
       else pre ++ ["!write-reset"]
     -- Spec side, on the observed trace
